@@ -1,4 +1,4 @@
-import N2k.Lemmas.RxHistory
+import N2k.Lemmas.RxRun
 /-!
 # C02 — received frames are reassembled into exactly the messages that were sent
 
@@ -108,6 +108,54 @@ theorem C02_recycle_index_valid (st : St) (now : Nat)
     unfold N2k.Time.hasElapsed N2k.Time.sub32 N2k.Time.millis32 N2k.Time.M32 N2k.Time.INT32_MAX at h
     simp only [decide_eq_true_eq] at h
     omega
+
+/-- beyond the slot count (more senders than slots, any overload, any timing) the claim is safety: this is
+`C02_no_corruption`, which has no hypothesis on the number of senders or slots; restated for the record -/
+theorem C02_overload_safe (c : Cfg) (N : Nat) (evs : List (Nat × Frame)) (hwf : ∀ e ∈ evs, WFrame e.2) :
+    ∀ i m, (outputs c (init N) evs)[i]? = some (some m) →
+      ∃ e, evs[i]? = some e ∧ handled c e.2 = true ∧ Delivery isFP (handledFrames c (evs.take (i+1))) e.2 m :=
+  fun i m h => C02_no_corruption c N evs hwf i m h
+
+/-- **Completeness / exact delivery.** `Spec.outputs isFP Spec.empty` is the abstract reassembler of
+`Spec/Reassembly.lean` (per PGN and source: a first frame supersedes, an in-sequence continuation frame – same sequence
+id, next counter – is appended, any other continuation frame discards the message as a whole, a complete message with
+announced length ≤ 223 is delivered once; single frames are delivered with the DLC as length). If at every first or
+single frame the unfinished messages of the abstract reassembler together with the new one belong to at most `N`
+(PGN, source) pairs (`Spec.Fits`: "up to as many concurrent senders as there are reassembly slots" – a condition on
+the frame sequence only), then the messages handed to the application are EXACTLY those of the abstract reassembler,
+in the same order: every interleaving, every loss / duplication / reordering pattern (they are just different
+`evs`), every arrival time (the 100 ms recycling is never needed), any slot count `N`. -/
+theorem C02_refines_spec (c : Cfg) (N : Nat) (evs : List (Nat × Frame)) (hwf : ∀ e ∈ evs, WFrame e.2)
+    (hfit : Spec.Fits N Spec.empty (handledFrames c evs)) :
+    delivered c (init N) evs = (Spec.outputs isFP Spec.empty (handledFrames c evs)).filterMap id :=
+  run_refines c evs (init N) [] Spec.empty (Inv.init isFP N) (Abs.init N) hwf
+    (availRun_of_fits c evs (init N) [] Spec.empty (Inv.init isFP N) (Abs.init N) hwf hfit)
+
+/-- the same under the weaker, directly checkable run condition `AvailRun` (the slot search never gives up and never
+recycles): this is exactly what the refinement proof needs -/
+theorem C02_refines_spec_avail (c : Cfg) (N : Nat) (evs : List (Nat × Frame)) (hwf : ∀ e ∈ evs, WFrame e.2)
+    (hav : AvailRun c (init N) evs) :
+    delivered c (init N) evs = (Spec.outputs isFP Spec.empty (handledFrames c evs)).filterMap id :=
+  run_refines c evs (init N) [] Spec.empty (Inv.init isFP N) (Abs.init N) hwf hav
+
+/-- corollary: if all handled frames of the history come from at most `N` (PGN, source) pairs, delivery is exact -/
+theorem C02_exact_up_to_slot_count (c : Cfg) (N : Nat) (evs : List (Nat × Frame)) (hwf : ∀ e ∈ evs, WFrame e.2)
+    (K : List (Nat × Nat)) (hK : K.length ≤ N) (hkeys : ∀ f ∈ handledFrames c evs, (f.pgn, f.src) ∈ K) :
+    delivered c (init N) evs = (Spec.outputs isFP Spec.empty (handledFrames c evs)).filterMap id :=
+  C02_refines_spec c N evs hwf
+    (fits_of_few_keys N K hK _ Spec.empty (fun _ _ h => absurd rfl h) hkeys)
+
+/-- non-vacuity of the hypotheses of `C02_exact_up_to_slot_count` / `C02_refines_spec`: two senders, two slots, an
+abandoned message superseded by the next first frame, and the resulting exact delivery -/
+example :
+    let fr (src b0 b1 : Nat) : Frame := ⟨3, 129029, src, 255, 8, [b0, b1, 1, 2, 3, 4, 5, 6]⟩
+    let evs : List (Nat × Frame) :=
+      [(0, fr 1 0x20 20), (1, fr 2 0x40 9), (2, fr 1 0x40 9), (3, fr 2 0x41 7), (3, fr 1 0x41 0)]
+    (∀ e ∈ evs, WFrame e.2) ∧ ([(129029, 1), (129029, 2)] : List (Nat × Nat)).length ≤ 2 ∧
+    (∀ f ∈ handledFrames {} evs, (f.pgn, f.src) ∈ [(129029, 1), (129029, 2)]) ∧
+    delivered {} (init 2) evs =
+      [⟨3, 129029, 2, 255, 9, [1, 2, 3, 4, 5, 6, 7, 1, 2]⟩, ⟨3, 129029, 1, 255, 9, [1, 2, 3, 4, 5, 6, 0, 1, 2]⟩] := by
+  decide
 
 /-- non-vacuity: a 3-frame fast packet (PGN 129029) interleaved with a single frame and a frame of another sender
 is delivered, by the executable model, on one slot pair -/
